@@ -1,6 +1,7 @@
 //! vh — conformance harness binding the TLA+ specifications in /verif/spec to the real
 //! pdatastructs code (path dependency on /repo, built with --cfg pdatastructs_verif).
 mod common;
+mod bl;
 mod ck;
 mod qf;
 
@@ -63,6 +64,12 @@ fn main() {
         ("replay", "qf") => replay::<qf::QfSut>(&args),
         ("scenario", "qf") => scenario::<qf::QfSut>(&args),
         ("drive", "qf") => qf::drive(&args),
+        ("replay", "bl") => replay::<bl::BlSut>(&args),
+        ("scenario", "bl") => scenario::<bl::BlSut>(&args),
+        ("scenario", "hs") => scenario::<bl::HsSut>(&args),
+        ("drive", "bl") => bl::drive(&args, false),
+        ("drive", "hs") => bl::drive(&args, true),
+        ("learn", "bl") => bl::learn(&args),
         ("replay", "ck") => replay::<ck::CkSut>(&args),
         ("scenario", "ck") => scenario::<ck::CkSut>(&args),
         ("drive", "ck") => ck::drive(&args),
